@@ -51,6 +51,9 @@ func (r *RateLimitedTokenRequest) Marshal() []byte {
 }
 
 func (r *RateLimitedTokenRequest) Unmarshal(data []byte) bool {
+	// Drop any cached encoding of a previous value.
+	r.raw = nil
+
 	s := cryptobyte.String(data)
 
 	var tokenType uint16
